@@ -10,10 +10,6 @@ CLAIMED = {}
 def claim(pid, technique, text, note):
     CLAIMED[pid] = (technique, text, note)
 
-claim('C18', 'sanitizer-instrumented differential execution against independent reference hash definitions over an exhaustive (length, alignment, seed, content) grid; guard-page and changing-surroundings placement monitors',
-      'Runs the real hash functions (ASan+UBSan build of the current tree) on the complete stated grid plus random keys; value equality with reference definitions, placement independence and exact read extent observed on every evaluation. Exhaustive over the grid, nothing beyond it.',
-      'Trusts the reference implementations in harness/c18.c (written from the published definitions), gcc ASan red zones and PROT_NONE pages for read extent; alignment sanitizer off; little-endian host only.')
-
 exec(open(os.path.join(ROOT, 'tools', 'manifest_claims.py')).read()) if os.path.exists(os.path.join(ROOT, 'tools', 'manifest_claims.py')) else None
 
 hooks_commits = []
